@@ -223,6 +223,7 @@ class Report:
         self.pid, self.tier, self.seed = pid, tier, seed
         self.t0 = time.time()
         self.violations = []      # (signature, replay_path, description)
+        self.sig_counts = {}
         self.known_hits = {}
         self.cov = dict(states=0, transitions=0, traces_validated_against_impl=0, samples=[],
                         evaluations=0, distinct_nontrivial=0, parts={})
@@ -252,6 +253,7 @@ class Report:
             self.cov["parts"][name]["distinct_nontrivial"] = distinct
 
     def violation(self, signature, replay, what):
+        self.sig_counts[signature] = self.sig_counts.get(signature, 0) + 1
         for k in self.known:
             if k.get("status") == "known" and re.search(k["signature"], signature):
                 self.known_hits.setdefault(k["signature"], [k, 0])[1] += 1
@@ -290,10 +292,16 @@ class Report:
         return 1 if self.violations else 0
 
 
+_lines_cache = {}
+
+
 def extract_execution(trace_path, line_no, out_path, boundary='{"e":"Reset"'):
     """Write the execution (Reset..next Reset) containing 1-based line_no to out_path."""
-    with open(trace_path) as f:
-        lines = f.readlines()
+    if trace_path not in _lines_cache:
+        _lines_cache.clear()
+        with open(trace_path) as f:
+            _lines_cache[trace_path] = f.readlines()
+    lines = _lines_cache[trace_path]
     i = min(line_no - 1, len(lines) - 1)
     a = i
     while a > 0 and not lines[a].startswith(boundary):
